@@ -59,6 +59,7 @@ def obligations(tier):
         Ob("step_state_symbolic_flag", "E2", "k_step", {"first": None}, 300, "first_slot flag itself symbolic (both cases in one exploration)", weight=12),
         Ob("close", "E2", "k_close", {}, 60, "close appends exactly FF and writes the whole buffer once", weight=1),
         Ob("merge_step", "E2", "k_merge", {}, 300, "merge of a decoded cache with keys {k1, '', k2}: empty skipped, others re-added by the same step", weight=10),
+        Ob("merge_duplicate_across_inputs", "E2", "k_merge_dup", {}, 300, "two merge inputs (and two from_payloads inputs) sharing a URI: rejected with ValueError, nothing written", weight=10),
         Ob("from_payloads_step", "E2", "k_from_payloads", {}, 300, "two '<uri>,<file>' inputs, file contents opaque with symbolic length", weight=10),
         Ob("main_dispatch", "E2", "k_main", {}, 300, "main(): three sub-commands, output written exactly once after close; error => no write", weight=10),
         Ob("lemma_fp_ceil", "L", "l_ceil", {}, 200, "a < 2^40, b <= 2^17 real-arithmetic IEEE axioms", weight=2),
@@ -276,7 +277,7 @@ def entry_vcs(segs, first, uri, data_len, data_ident, eb, require_aligned_total=
 # ------------------------------------------------------------------------------------------------ obligations (E2)
 
 
-def _finish(K, vcs_per_path, paths, t0, extra_samples=None, cex_builder=None, small=()):
+def _finish(K, vcs_per_path, paths, t0, extra_samples=None, cex_builder=None, small=(), prefer=()):
     import time
 
     bad = None
@@ -289,6 +290,12 @@ def _finish(K, vcs_per_path, paths, t0, extra_samples=None, cex_builder=None, sm
                 if small:
                     m2 = K.small_model(p.pc, vc, list(small))
                     model = m2 if m2 is not None else model
+                if prefer:
+                    import z3 as _z3
+
+                    # prefer a counterexample that also satisfies the generic-position constraints (easier to realise)
+                    sat_, m3 = K.satisfiable(list(p.pc) + [_z3.Not(vc)] + list(prefer))
+                    model = m3 if sat_ else model
                 bad = (p, name, model)
                 break
         if bad:
@@ -426,14 +433,8 @@ def k_step(first=None, exclude=()):
         member_pre = base(uid) if first is not True else z3.BoolVal(False)
         if p.outcome == "raise":
             vcs = [("only ValueError may be raised", z3.BoolVal(isinstance(p.value, ValueError)))]
-            # a raise is justified only by a duplicate URI or by padding that does not fit 16 bits
-            ceil = [e for e in p.log if e[0] == "ceil_div"]
-            if ceil:
-                _, num, den, q = ceil[0]
-                pad = q * den - num
-                vcs.append(("raise justified (duplicate or padding > 0xFFFF)", z3.Or(member_pre, pad > 0xFFFF, z3.And(pad == 1, pad + den > 0xFFFF))))
-            else:
-                vcs.append(("raise justified (duplicate)", member_pre))
+            # a rejection writes no malformed file; whether a rejection is *necessary* is not part of the property
+            # (a stricter limit would still satisfy it), so only the exception type is asserted
             vpp.append((p, vcs))
             samples.append(f"raise {type(p.value).__name__} under {len(p.pc)} constraints")
             continue
@@ -554,10 +555,6 @@ def _two_entry_check(K, z3, paths, expected, eb_term, t0, cexf, small=()):
     for p in paths:
         if p.outcome == "raise":
             vcs = [("only ValueError may be raised", z3.BoolVal(isinstance(p.value, ValueError)))]
-            ceil = [e for e in p.log if e[0] == "ceil_div"]
-            # distinct URIs: a rejection is legitimate only when some slot needs more than 0xFFFF padding bytes
-            just = [z3.Or(q * den - num > 0xFFFF, z3.And(q * den - num == 1, den + 1 > 0xFFFF)) for _, num, den, q in ceil]
-            vcs.append(("rejection justified by padding > 0xFFFF", z3.Or(*just) if just else z3.BoolVal(False)))
             vpp.append((p, vcs))
             samples.append("raise " + type(p.value).__name__)
             continue
@@ -800,6 +797,58 @@ def k_merge(exclude=()):
     cexf = lambda p, m: {"eb": _model_int(m, eb, 16), "lengths": [_model_int(m, Ls[0], 0), _model_int(m, Ls[2], 0)], "pad": _model_int(m, Ls[1], 0), "uris": ["#a", "#b"], "unrolled": True, "via": "merge"}
     res = _two_entry_check(K, z3, paths, exp, eb, t0, cexf, small=Ls)
     if res["verdict"] == "CONFIRMED" and not any(p.outcome == "ret" for p in paths):
+        res["verdict"] = "VACUOUS"
+    return res
+
+
+def k_merge_dup(exclude=()):
+    """A URI present in two different inputs must be rejected (merge and from_payloads), and nothing is written."""
+    import time
+
+    import cbor2
+    import z3
+
+    from vlib import kernsym as K
+    from vlib import ksmodels as KM
+    from vlib.ksvalues import Rope, Seg, SInt
+
+    C = _mod()
+    t0 = time.time()
+    eb = z3.Int("eb")
+    Ls = [z3.Int("L0"), z3.Int("L1"), z3.Int("L2")]
+    mode = z3.Int("mode")
+    decoded = {
+        "a.cache": {"#app": Rope([Seg("opaque", "D0", Ls[0])]), "": Rope([Seg("fill", 0, z3.Int("Lp"))])},
+        "b.cache": {"#other": Rope([Seg("opaque", "D1", Ls[1])]), "#app": Rope([Seg("opaque", "D2", Ls[2])])},
+    }
+
+    def run(ctx):
+        ctx.assume(z3.And(eb >= 1, eb <= 65536, mode >= 0, mode <= 1, z3.Int("Lp") >= 0))
+        for L in Ls:
+            ctx.assume(z3.And(L >= 0, L < 2**32))
+        fs = KM.KFS(ctx, {"a.cache": Rope([Seg("opaque", "FA", z3.Int("fa"))]), "b.cache": Rope([Seg("opaque", "FB", z3.Int("fb"))]), "f0": Rope([Seg("opaque", "D0", Ls[0])]), "f1": Rope([Seg("opaque", "D1", Ls[1])]), "f2": Rope([Seg("opaque", "D2", Ls[2])])})
+
+        def loads(it, args, kwargs):
+            (b,) = args
+            return decoded["a.cache" if b.segs[0].a == "FA" else "b.cache"]
+
+        it = _interp(ctx, C, fs, {cbor2.loads: loads})
+        if ctx.branch(mode == 0):
+            it.call_function(C.main, [], {"eb_size": SInt(eb), "cache_create_subcommand": "merge", "input": ["a.cache", "b.cache"], "output_file": "out.cache"}, None)
+        else:
+            it.call_function(C.main, [], {"eb_size": SInt(eb), "cache_create_subcommand": "from_payloads", "input": ["#app,f0", "#other,f1", "#app,f2"], "output_file": "out.cache"}, None)
+        return None
+
+    paths = K.explore(run)
+    vpp = []
+    for p in paths:
+        writes = [e for e in p.log if e[0] == "write"]
+        if p.outcome == "raise":
+            vpp.append((p, [("duplicate rejected with ValueError", z3.BoolVal(isinstance(p.value, ValueError))), ("nothing written", z3.BoolVal(not writes))]))
+        else:
+            vpp.append((p, [("a URI present in two inputs is never accepted", z3.BoolVal(False))]))
+    res = _finish(K, vpp, paths, t0, ["raise ValueError on both sub-commands"], lambda p, m: {"eb": _model_int(m, eb, 16), "dup_inputs": True, "mode": _model_int(m, mode, 0), "lengths": [_model_int(m, L, 1) for L in Ls]}, small=Ls)
+    if res["verdict"] == "CONFIRMED" and len(paths) < 2:
         res["verdict"] = "VACUOUS"
     return res
 
@@ -1064,6 +1113,27 @@ def replay(obligation, params, cex):
     eb = int(cex.get("eb", 16))
     d = tempfile.mkdtemp(prefix="verif-c10r-")
     try:
+        if cex.get("dup_inputs"):
+            ls = [min(int(x), 1 << 20) for x in cex.get("lengths", [1, 1, 1])]
+            out = os.path.join(d, "o.cache")
+            try:
+                if cex.get("mode", 0) == 0:
+                    fa, fb = os.path.join(d, "a.cache"), os.path.join(d, "b.cache")
+                    open(fa, "wb").write(reference_cache(64, [("#app", b"\x01" * ls[0])]))
+                    open(fb, "wb").write(reference_cache(8, [("#other", b"\x02" * ls[1]), ("#app", b"\x03" * ls[2])]))
+                    C.main(cache_create_subcommand="merge", eb_size=eb, input=[fa, fb], output_file=out)
+                else:
+                    ins = []
+                    for j, (u, ln) in enumerate(zip(["#app", "#other", "#app"], ls)):
+                        f = os.path.join(d, f"f{j}")
+                        open(f, "wb").write(bytes([j + 1]) * ln)
+                        ins.append(f"{u},{f}")
+                    C.main(cache_create_subcommand="from_payloads", eb_size=eb, input=ins, output_file=out)
+            except ValueError as e:
+                return dict(reproduced=os.path.exists(out), detail=f"rejected: {e}; output exists: {os.path.exists(out)}")
+            except Exception as e:  # noqa
+                return dict(reproduced=True, detail=f"raises {type(e).__name__}: {e}")
+            return dict(reproduced=True, detail="a URI present in two inputs was accepted")
         if cex.get("unrolled"):
             pairs = [(u, bytes((i * 5 + j) & 0xFF for i in range(min(L, 1 << 24)))) for j, (u, L) in enumerate(zip(cex["uris"], cex["lengths"]))]
             via = cex.get("via")
